@@ -68,7 +68,7 @@ CHECKS.update({
          "The probe crate requiring Send + Sync compiled; thousands of rounds of 4-32 threads expanding shared states (Arc / borrowed with droppers / moved clones; incl. roots whose queries do several history look-ups with different answers, hammered 40x per thread) all equalled the sequential expansion with the root unchanged; cold-start processes, simultaneous last-owner drops with stack-span probes, TSan and Miri (two root kinds) were silent.",
          "Interleavings are sampled, not enumerated; the 'for all client programs' half is a compile-time fact observed through a build.", "§6 C18"),
  "C20": ("subprocess monitor: exit status of children playing 1.5e5-2e6 capture-free turns on a 2 MiB thread + VmStk high-water mark vs history length, two build profiles",
-         "Children survived query / clone / capture / drop (also during panic unwinding, also by simultaneous last owners) after up to 4e5 (quick) / 8e6 (thorough) turns on the default 2 MiB stack, and stack use did not grow between 1e3 and 4e5 turns (VmStk) nor between 500 and 4000 nodes (drop probes).",
+         "Children survived query / clone / capture / drop (also during panic unwinding, also by simultaneous last owners) after up to 4e5 (quick) / 3e6 (thorough) turns on the default 2 MiB stack, and stack use did not grow between 1e3 and 4e5 turns (VmStk) nor between 500 and 4000 nodes (drop probes).",
          "Bounded restatement of 'for all lengths'; a child that dies for another reason makes the run inconclusive.", "§6 C20"),
 })
 
